@@ -202,6 +202,10 @@ def _walk_value(v, path, out, depth):
         out[id(v)] = (path, v)
         for i, x in enumerate(list(v)[:50]):
             _walk_value(x, f'{path}[{i}]', out, depth + 1)
+    elif isinstance(v, tuple):
+        # (the tuple itself cannot change, what it holds can)
+        for i, x in enumerate(v[:50]):
+            _walk_value(x, f'{path}[{i}]', out, depth + 1)
     elif isinstance(v, dict):
         out[id(v)] = (path, v)
         for kk, x in list(v.items())[:50]:
@@ -408,7 +412,9 @@ def gen_fixed():
                     for route in range(3):
                         for side in ('copy', 'orig'):
                             for pre in ([], [['solve', True]], [['solve', False], ['add_variable', ['new', 'W'], {'scalar': 2}, None]],
-                                        [['add_attribute', 'sub', 3], ['add_attribute', 'e', {'s': 'v'}]]):
+                                        [['add_attribute', 'sub', 3], ['add_attribute', 'e', {'s': 'v'}]],
+                                        # attribute values that are hashable and yet mutable inside
+                                        [['add_attribute', 'pair', {'tl': [1, 2]}], ['add_attribute', 'holder', {'obj': [1]}]]):
                                 yield {'mode': 'copy', 'kind': kind, 'span': desc, 'pre': pre, 'route': route, 'side': side, 'post': [op]}
                             if op[0] in ('inplace', 'solve', 'setattr'):
                                 yield {'mode': 'copy', 'kind': kind, 'span': desc, 'pre': [], 'route': route, 'side': side,
